@@ -104,6 +104,7 @@ class SymArr:
         else:
             r = SymArr(self.length, self._elem, self.kind)
             r.ghost = self.ghost  # shared until mutated
+            r.prefix_of = getattr(self, "prefix_of", None)
         r.is_list = self.is_list
         r.name = self.name
         return r
@@ -119,6 +120,7 @@ class SymArr:
         old = self._elem
         self._elem = lambda i: vite(cond_fn(i), val_fn(i), old(i))
         self.ghost = {}
+        self.prefix_of = None
 
     def set_at(self, idx, val):
         idx = idx_term(idx)
@@ -150,9 +152,13 @@ class SymArr:
         self._elem = lambda i: vite(icmp("==", i, n), val, old(i))
         self.length = iadd(n, 1)
         self.ghost = {}
+        self.prefix_of = None
 
     # -- ghosts -------------------------------------------------------
     def fold(self, op):
+        par = getattr(self, "prefix_of", None)
+        if par is not None:
+            return par.fold(op)
         key = "fold" + op
         if key not in self.ghost:
             self.ghost[key] = GhostFold(self, op)
@@ -186,6 +192,21 @@ def vite(c, a, b):
 
 
 from .core import _isT, _isF  # noqa
+
+
+def fold_ite(c, a, b):
+    """ite whose condition is first resolved against the current hypotheses (cheap linear query)"""
+    if isinstance(c, SBool):
+        c = c.t
+    if isinstance(c, bool):
+        return a if c else b
+    cx = ctx()
+    if cx is not None:
+        if cx.known_true(c):
+            return a
+        if cx.known_false(c):
+            return b
+    return vite(c, a, b)
 
 
 def _index_terms_add(self, t):
